@@ -38,6 +38,28 @@ func ghostEpoch(st *State) int64 {
 	return 0
 }
 
+// defaultGhost: the value a lazily materialised ghost location has in st before
+// it was first touched (deterministic in the key and the state's epoch).
+func defaultGhost(st *State, key string) Value {
+	ep := ghostEpoch(st)
+	switch {
+	case strings.HasPrefix(key, "out:"):
+		return Var(fmt.Sprintf("out%d:%s", ep, key[4:]), SStr)
+	case strings.HasPrefix(key, "in:"):
+		return Var(fmt.Sprintf("in%d:%s", ep, key[3:]), SStr)
+	case strings.HasPrefix(key, "tr:"):
+		nm := fmt.Sprintf("tr%d:%s", ep, key[3:])
+		return &SliceV{Len: Var(nm+".len", SInt), Nil: False, At: func(i *Term) Value {
+			return &StructV{Names: []string{"kind", "a", "b", "n", "h"}, F: map[string]Value{
+				"kind": App(nm+".kind", SInt, i), "a": App(nm+".a", SStr, i), "b": App(nm+".b", SStr, i),
+				"n": App(nm+".n", SInt, i), "h": App(nm+".h", SInt, i)}}
+		}}
+	case strings.HasPrefix(key, "lock:"):
+		return False
+	}
+	return nil
+}
+
 func (ec *evalCtx) noteFailure(errNonNil *Term) {
 	lv := ec.failedLval()
 	lv.set(Or(scalar(lv.get()), errNonNil))
@@ -188,11 +210,17 @@ func (ec *evalCtx) bufferDoc(sv *StructV) *Term {
 // underlying writer accepted followed by the bytes still pending in its
 // bufio.Writer; for any other writer out(w).
 func (ec *evalCtx) docValue(w Value) Value {
-	if sv, cond, ok := ec.runtimeBufferSym(w); ok {
-		if cond.IsTrue() {
-			return ec.bufferDoc(sv)
-		}
-		return Ite(cond, ec.bufferDoc(sv), scalar(ec.outLval(w).get()))
+	if sv, ok := ec.runtimeBuffer(w); ok {
+		return ec.bufferDoc(sv)
+	}
+	return ec.outLval(w).get()
+}
+
+// sinkValue: what has actually left the process through w: for a runtime.Buffer
+// the output of its underlying writer, otherwise out(w).
+func (ec *evalCtx) sinkValue(w Value) Value {
+	if sv, ok := ec.runtimeBuffer(w); ok {
+		return ec.outLval(sv.F["Underlying"]).get()
 	}
 	return ec.outLval(w).get()
 }
@@ -319,10 +347,7 @@ func (ec *evalCtx) ghostLvalOf(e ast.Expr) (lval, bool) {
 func (ec *evalCtx) havocGhost(e ast.Expr) bool {
 	if call, ok := e.(*ast.CallExpr); ok && exprString(call.Fun) == "doc" && len(call.Args) == 1 {
 		w := ec.eval(call.Args[0])
-		if sv, cond, ok := ec.runtimeBufferSym(w); ok {
-			if !cond.IsTrue() {
-				ec.outLval(w).set(Var(ec.e().fresher.name("ghost.out"), SStr))
-			}
+		if sv, ok := ec.runtimeBuffer(w); ok {
 			ulv := ec.outLval(sv.F["Underlying"])
 			ulv.set(Var(ec.e().fresher.name("ghost.out"), SStr))
 			if bwp, ok := sv.F["b"].(*PtrV); ok && bwp.Obj >= 0 {
